@@ -29,7 +29,7 @@ ASSUMPTIONS = [
     "non-integer precision/scale mutants are 2.5, '3', true; negative is -1 (A20)",
     "valid schemas as in A21 (no reference from a namespace to a null-namespace type, definitions before use)",
 ]
-N = {"quick": 40000, "thorough": 1600000}
+N = {"quick": 120000, "thorough": 2400000}
 TIME_LIMIT = {"quick": 40, "thorough": 480}
 SHARDS = 16
 REACH = {
